@@ -600,7 +600,7 @@ class Sandbox:
         # And do the patches
         self._start_patches(
             patch.dict('sys.modules', overridden_modules),
-            patch('sys.stdout', self._current_stdout[-1]),
+            patch.object(sys, 'stdout', self._current_stdout[-1]),
             # The real module, whatever the instructor mocked or blocked under the name `time`
             patch.object(time, 'sleep', return_value=None),
         )
